@@ -99,7 +99,7 @@ func init() {
 				[]string{"vacant ordinal filled", "finished pod re-created"}),
 			step("step-three-healthy-pods", []int{3, 1, 1, oLeanPods | oThreeRevs | oDeleting, mC04}, []int{3, 2, 1, oLeanPods | oThreeRevs | oDeleting, mC04},
 				[]string{"created ordinal is desired"}, []string{"vacant ordinal filled"}),
-			step("step-arbitrary-slots", []int{1, 2, 2, oPolicyParallel | oLeanPods | oNoRollout | oWildSlots, mC04 | mC14}, []int{1, 3, 2, oLeanPods | oWildSlots, mC04 | mC14},
+			step("step-arbitrary-slots", []int{1, 2, 2, oPolicyParallel | oLeanPods | oNoRollout | oWildSlots, mC04 | mC14}, []int{1, 3, 2, oPolicyParallel | oLeanPods | oWildSlots, mC04 | mC14},
 				[]string{"created ordinal is desired", "every vacant desired ordinal is created in the same reconcile"},
 				[]string{"vacant ordinal filled"}),
 		},
@@ -231,7 +231,7 @@ func init() {
 				[]string{"reconcile never panics"}, []string{"reconcile returned"}),
 			syncRun("sync-conflict-and-cache-miss", []int{1, 1, 0, yStatusConflict | yCacheLosesSet | yHealthDims, nC15}, []int{2, 2, 1, yStatusConflict | yCacheLosesSet | yHealthDims, nC15},
 				[]string{"reconcile never panics"}, []string{"the set leaves the cache during the reconcile", "fault injected at set.updateStatus"}),
-			syncRun("sync-selector-shapes", []int{1, 1, 0, yUndefaulted | ySelectorShapes, nC15}, []int{2, 1, 0, yUndefaulted | ySelectorShapes | yHealthDims, nC15},
+			syncRun("sync-selector-shapes", []int{1, 1, 0, yUndefaulted | ySelectorShapes, nC15}, []int{1, 1, 0, yUndefaulted | ySelectorShapes | yHealthDims, nC15},
 				[]string{"reconcile never panics"}, []string{"empty selector", "DoesNotExist selector"}),
 		},
 		Stubs:        ctlStubs,
@@ -448,7 +448,7 @@ func init() {
 				},
 				Asserts: []string{"a fixed point is reached within the derived number of rounds", "no pod outside the desired set remains", "every desired ordinal has its pod", "once converged a reconcile issues no write", "status.readyReplicas equals spec.replicas"},
 				Covers:  []string{"converged and quiet"}, MaxSteps: 40_000_000},
-			{Name: "converge-without-history", Pkg: pkgCtl, Func: "VH_Converge", Quick: []int{1, 2, 1, oThreeRevs | oLeanPods | oNoHistory}, Thorough: []int{2, 2, 1, oThreeRevs | oLeanPods | oNoHistory},
+			{Name: "converge-without-history", Pkg: pkgCtl, Func: "VH_Converge", Quick: []int{1, 2, 1, oThreeRevs | oLeanPods | oNoHistory}, Thorough: []int{1, 2, 1, oThreeRevs | oLeanPods | oNoHistory},
 				Bounds: func(a []int) string {
 					return fmt.Sprintf("as above with revisionHistoryLimit 0 (history trimming runs in every reconcile, also while a held-back update leaves no pod at the update revision) and <=%d healthy pods of any revision", a[0])
 				},
@@ -479,7 +479,7 @@ func init() {
 				},
 				Asserts: []string{"a failed API call makes the reconcile report failure", "after the failure a fixed point is reached"},
 				Covers:  []string{"two calls failed in one reconcile"}, MaxSteps: 40_000_000},
-			{Name: "failure-compared-with-a-run-without-failures", Pkg: pkgCtl, Func: "VH_Fault", Quick: []int{1, 1, 0, oThreeRevs, 1, 0, 1, 1}, Thorough: []int{1, 1, 1, oThreeRevs, 2, 0, 1, 1},
+			{Name: "failure-compared-with-a-run-without-failures", Pkg: pkgCtl, Func: "VH_Fault", Quick: []int{1, 1, 0, oThreeRevs, 1, 0, 1, 1}, Thorough: []int{1, 1, 0, oThreeRevs, 1, 0, 1, 1},
 				Bounds: func(a []int) string {
 					return fmt.Sprintf("as 'failure' (one failing call, %d error kinds, <=%d pods of any phase/readiness/revision, replicas in [0,%d], <=%d slots); the same start state is also run without failures and the two final states are compared: pods, their revisions, claims, status counters and revisions", a[4], a[0], a[1], a[2])
 				},
